@@ -992,7 +992,29 @@ func describeDir(files []fileC15) string {
 
 func TestC15(t *testing.T) {
 	rec := ev.New("C15", "exploration")
-	rec.Rule = "rapid draws a directory (1-5 members: plain files, files compressed by gxz and by xz-utils with varied options in both formats, bit-flipped / truncated / not-compressed files with a compressed suffix, a directory, a symbolic link to a member; names with spaces, known / unknown / tar suffixes, leading dashes; modes 0400..0755) and a history of 1-2 invocations of the gxz binary built from the tree (options from {-d,-z,-k,-c,-f,-q,-v,-F/--format xz|lzma|alone|auto,-0..-9} in short, long, bundled, '=' and separate-argument styles, placed before, between and after 1-4 operands incl. a missing one and the operand '-' (standard input fed with a member's bytes or nothing), optional '--'); an executable model of the documented semantics predicts per operand success or failure, the resulting tree (plaintext of every file), standard output and whether the exit status is non-zero; compressed outputs are decoded by the reference decoder and tested by xz-utils; output modes must not exceed the source's; no temporary file may remain; non-trivial = >= 2 options or >= 2 operands; distinct = hash of the case"
+	rec.Rule = "enumerated first: one good operand followed by 255, 256, 257 and 512 missing ones (exit status must stay non-zero); then rapid draws a directory (1-5 members: plain files, files compressed by gxz and by xz-utils with varied options in both formats, bit-flipped / truncated / not-compressed files with a compressed suffix, a directory, a symbolic link to a member; names with spaces, known / unknown / tar suffixes, leading dashes; modes 0400..0755) and a history of 1-2 invocations of the gxz binary built from the tree (options from {-d,-z,-k,-c,-f,-q,-v,-F/--format xz|lzma|alone|auto,-0..-9} in short, long, bundled, '=' and separate-argument styles, placed before, between and after 1-4 operands incl. a missing one and the operand '-' (standard input fed with a member's bytes or nothing), optional '--'); an executable model of the documented semantics predicts per operand success or failure, the resulting tree (plaintext of every file), standard output and whether the exit status is non-zero; compressed outputs are decoded by the reference decoder and tested by xz-utils; output modes must not exceed the source's; no temporary file may remain; non-trivial = >= 2 options or >= 2 operands; distinct = hash of the case"
 	rec.Assumptions = []string{"names that gflag would take for the optional argument of a boolean/counter option (1, true, leading dash) are only used after '--'", "files compressed twice are modelled loosely (safety only)", "umask 0"}
+	// exit status with very many failing operands (a status is one byte: a
+	// count of failures must not wrap to 0), before the random cases
+	enumerate(t, rec, checkC15, func(try func(caseC15) bool) {
+		for i, n := range []int{255, 256, 257, 512} {
+			if i%rec.Shards != rec.Shard {
+				continue
+			}
+			ops := []string{"a"}
+			for k := 0; k < n; k++ {
+				ops = append(ops, "missing-file")
+			}
+			c := caseC15{Files: []fileC15{{Name: "a", Kind: "plain", Data: gen.Recipe{{Kind: "text", K: 4, Len: 500, Seed: uint64(n)}}, Mode: 0644}},
+				Invs: []invC15{{Flags: []flagC15{{F: "k", Style: "short"}}, Files: ops, FlagPos: []int{0}}}}
+			rec.Class("many_failing_operands")
+			if !try(c) {
+				return
+			}
+		}
+	})
+	if t.Failed() {
+		return
+	}
 	drive(t, rec, drawC15, checkC15)
 }
